@@ -96,6 +96,15 @@ func (n *Net) Log(conn int, kind string, num int, note string) int64 {
 	return t
 }
 
+// Release drops the event log and the connection table of a world that is no longer used.
+func (n *Net) Release() {
+	n.mu.Lock()
+	n.events = nil
+	n.keepLog = false
+	n.conns = map[int]*Conn{}
+	n.mu.Unlock()
+}
+
 // Events returns a copy of the log.
 func (n *Net) Events() []Event {
 	n.mu.Lock()
